@@ -46,7 +46,8 @@ type c12Case struct {
 	FinalEOL bool        `json:"finalEOL"`
 	Cuts     []int       `json:"cuts"` // read chunk sizes, cycled
 	Gzip     bool        `json:"gzip"`
-	Writes   []int       `json:"writes"` // bytes accepted per Write call, cycled (0 = everything)
+	Members  int         `json:"members,omitempty"` // > 1: the gzip body consists of that many concatenated members (RFC 1952)
+	Writes   []int       `json:"writes"`            // bytes accepted per Write call, cycled (0 = everything)
 	Assigned bool        `json:"assigned"`
 	CType    string      `json:"ctype"`
 	Raw      []byte      `json:"raw,omitempty"` // fuzz: appended verbatim
@@ -162,6 +163,23 @@ func (w *shortWriter) Write(p []byte) (int, error) {
 	return n, nil
 }
 
+// gzMembers compresses b as n concatenated gzip members.
+func gzMembers(b []byte, n int) []byte {
+	if n <= 1 || len(b) < n {
+		return gz(b)
+	}
+	var out []byte
+	step := len(b) / n
+	for i := 0; i < n; i++ {
+		end := (i + 1) * step
+		if i == n-1 {
+			end = len(b)
+		}
+		out = append(out, gz(b[i*step:end])...)
+	}
+	return out
+}
+
 func gz(b []byte) []byte {
 	var out bytes.Buffer
 	zw := gzip.NewWriter(&out)
@@ -188,7 +206,7 @@ func runC12(rec *vkit.Recorder, c *c12Case) []vkit.Violation {
 			h.Set("Content-Type", c.CType)
 		}
 		if c.Gzip {
-			body = gz(pl)
+			body = gzMembers(pl, c.Members)
 			h.Set("Content-Encoding", "gzip")
 		}
 		cr := &chunkReader{data: append([]byte(nil), body...), cuts: c.Cuts, fail: -1}
@@ -248,6 +266,9 @@ func runC12(rec *vkit.Recorder, c *c12Case) []vkit.Violation {
 	if len(pl) == 0 {
 		cls = append(cls, "empty-payload")
 	}
+	if c.Gzip && c.Members > 1 {
+		cls = append(cls, "gzip-multi-member")
+	}
 	if w.short > 0 {
 		cls = append(cls, "short-writes")
 	}
@@ -305,6 +326,9 @@ func genC12(t *rapid.T) *c12Case {
 		}
 	}
 	c.Gzip = rapid.Bool().Draw(t, "gzip")
+	if c.Gzip && rapid.IntRange(0, 3).Draw(t, "multiMember") == 0 {
+		c.Members = rapid.IntRange(2, 4).Draw(t, "members")
+	}
 	nw := rapid.IntRange(0, 3).Draw(t, "nWrites")
 	for i := 0; i < nw; i++ {
 		c.Writes = append(c.Writes, rapid.SampledFrom([]int{1, 2, 5, 100, 4095, 0}).Draw(t, fmt.Sprintf("write%d", i)))
